@@ -11,7 +11,7 @@ import (
 
 func init() {
 	register(&Property{
-		ID: "C11",
+		ID:          "C11",
 		Explanation: "Decided for all paths (every crash point is a program point between two of these calls): takeSnapshot cancels the sink when Persist fails and advances lastSnapshot and compacts only after sink.Close() returned nil; InstallSnapshot and user restore move positions and remove logs only after the snapshot is durable and restored, removal last; compactLogsWithTrailing deletes [FirstIndex, m] where, folded over all (snapshot,last,trailing) in 0..6 admitted by its guards, m <= snapshot index, last-m >= trailing, no unsigned underflow, and first <= m dominates the call; compactLogs passes (snapshot index, last log index, TrailingLogs), removeOldLogs (last,last,0) and is reached only behind the MonotonicLogStore && IsMonotonic() test; the snapshot's index/term come from the FSM goroutine's lastIndex/lastTerm cells (written only after an apply or restore, from that entry's/snapshot's own index and term), its configuration is the committed one and the snapshot is refused while that configuration is newer than the FSM index; DeleteRange callers are frozen.",
 		NotDecided:  "that the FSM content written by Persist equals the committed history; what the SnapshotStore/LogStore persist across a crash (C15 covers the file store).",
 		RuleText:    "C11.R1 success-checked must-precede chains; R2 finite-domain folding of the compaction bound with its dominating guards; R3 who-may + guards of removeOldLogs/compactLogs; R4 data-origin tables for snapshot index/term/configuration; R5 S-DELETE.",
